@@ -120,10 +120,14 @@ func addVehicles(
 			return nil, err
 		}
 
-		if inputVehicle.AlternateStops != nil && input.AlternateStops != nil {
-			inputVehicleHasAlternateStops = true
+		if input.AlternateStops != nil {
+			// matrix layout: stops, alternate stops, then start and end of every vehicle
 			vehicle.First().SetMeasureIndex(len(input.Stops) + len(*input.AlternateStops) + idx*2)
 			vehicle.Last().SetMeasureIndex(len(input.Stops) + len(*input.AlternateStops) + idx*2 + 1)
+		}
+
+		if inputVehicle.AlternateStops != nil && input.AlternateStops != nil {
+			inputVehicleHasAlternateStops = true
 
 			err = constraint.SetVehicleTypeAttributes(
 				vehicleType,
